@@ -139,7 +139,7 @@ class Scalar(AbstractValueWithQuantityObject):
 
         :param unit:
         """
-        if unit is None:
+        if unit is None or unit == self._quantity.GetUnit():
             return self._value
         else:
             return self._quantity.ConvertScalarValue(self._value, unit)
